@@ -256,8 +256,10 @@ class DataSet:
             2: _parse_v2,
         }
 
-        version: int = dictionary.get("version", VERSION)
-        del dictionary["version"]
+        # Work on a shallow copy so that the dictionary provided by the caller
+        # is left intact and can be used again.
+        dictionary = dictionary.copy()
+        version: int = dictionary.pop("version", VERSION)
 
         if version > VERSION:
             raise ValueError(f"Unsupported version: {version=} > {VERSION=}")
